@@ -743,7 +743,7 @@ func stressCancel(seed int64, scale int) int {
 			defer wg.Done()
 			rng := rand.New(rand.NewSource(s))
 			for i := 0; i < per; i++ {
-				stack := rng.Intn(8)
+				stack := rng.Intn(9)
 				source := rng.Intn(4) // 0 ctx cancel, 1 ctx deadline, 2 async Cancel, 3 enclosing Timeout
 				at := time.Duration(rng.Intn(1500)) * time.Microsecond
 				var fbCalls, lateStarts atomic.Int32
@@ -777,6 +777,10 @@ func stressCancel(seed int64, scale int) int {
 					rl2 := ratelimiter.SmoothBuilderWithMaxRate[int](5 * time.Millisecond).WithMaxWaitTime(time.Second).Build()
 					rl2.TryAcquirePermit()
 					ps, name = []failsafe.Policy[int]{rl2, rp}, "ratelimiter(waiting)>retry"
+				case 8:
+					// the bulkhead encloses the retry and is full: the execution waits for a permit before the first attempt
+					bh.TryAcquirePermit()
+					ps, name = []failsafe.Policy[int]{bh, rp}, "bulkhead(full)>retry"
 				}
 				fnDur := time.Duration(rng.Intn(400)) * time.Microsecond
 				fn := func(e failsafe.Execution[int]) (int, error) {
